@@ -1,4 +1,5 @@
 """C08 Reordering"""
+import evlm
 import etaut
 import eevent
 import esort
@@ -58,5 +59,10 @@ def run(ctx):
                 "tables: probe chains stay intact (a vacated slot becomes FREE only next to a FREE cyclic successor, lookups stop "
                 "on FREE only, free-slot accounting) -- otherwise a live node becomes unfindable and a duplicate is created.")
     eraw.run(ctx, F)
+    ctx.explain("E-VLM: the managers' variable <-> level maps stay mutually inverse permutations: extend appends the identity "
+                "(new variables at the new bottom levels), swap_levels exchanges exactly two levels in both vectors, lookups read "
+                "their own vector; the index-based and the pointer-based manager's copies are the same program.")
+    nv = evlm.run(ctx, F)
+    ctx.floor("E-VLM", "interpreted VarLevelMap situations", nv, 38)
     ctx.not_decided = ("that functions are preserved, that the requested order is reached with minimal swaps, "
                        "non-overlap of concurrent swaps (runtime indices)")
